@@ -1575,7 +1575,7 @@ func main() {
 	small := []string{"AES256GCM", "ED25519"}
 
 	if args.Tier == "thorough" {
-		deep, nRandom = 4, 20000
+		deep, nRandom = 3, 15000
 	}
 
 	enumerate(alphabet(small, false), deep, func(ops []Op) {
